@@ -62,7 +62,14 @@ func checkC12(p *Program, r *Report) {
 			}
 			site := p.Pos(instrPos(a.in))
 			// R3: base is the receiver
-			r.Check(recv != nil && a.base == recv, "C12.R3", inst, site, "writes the receiver's own table", "writes the table of a scope other than the receiver")
+			okBase := recv != nil && a.base == recv
+			byR3 := "writes the receiver's own table"
+			if !okBase && recv != nil && m.scopeCursors(fn, recv)[a.base] && m.cursorActsOnHit(a.in.Block(), a.base) {
+				// the iterative form of a search that recursed on the parent: the scope the loop has arrived at is written only
+				// where that scope holds the binding (or is the root); which scope a mutator may reach is R7's business
+				okBase, byR3 = true, "writes the table of the scope the chain walk has arrived at, under that scope's own hit (or at the root)"
+			}
+			r.Check(okBase, "C12.R3", inst, site, byR3, "writes the table of a scope other than the receiver")
 			switch x := a.in.(type) {
 			case *ssa.MapUpdate:
 				switch {
@@ -512,7 +519,23 @@ func c12Order(p *Program, r *Report, m *envModel, fns []*ssa.Function) {
 		}
 		// parent call only when parent != nil; built-ins only when parent == nil
 		for _, pc := range parentCalls {
-			r.Check(m.guardedByParentTest(pc.Block(), curOf[pc], false), "C12.R4", fname+"|parent-guard", p.Pos(instrPos(pc)), "parent consulted only when it exists", "parent consulted without a parent != nil test")
+			okGuard := m.guardedByParentTest(pc.Block(), curOf[pc], false)
+			by := "parent consulted only when it exists"
+			if _, isJump := pc.(*ssa.Jump); isJump && !okGuard {
+				// `for c := e; c != nil; c = c.parent`: the step is unguarded, the loop head tests what it produced before any use
+				for c := range cur {
+					ph, isPhi := c.(*ssa.Phi)
+					if !isPhi || len(pc.Block().Succs) != 1 || ph.Block() != pc.Block().Succs[0] {
+						continue
+					}
+					if iff, ok := ph.Block().Instrs[len(ph.Block().Instrs)-1].(*ssa.If); ok {
+						if bo, ok := iff.Cond.(*ssa.BinOp); ok && bo.X == ssa.Value(ph) && isNilConst(bo.Y) {
+							okGuard, by = true, "the loop head tests the new scope for nil before it is used"
+						}
+					}
+				}
+			}
+			r.Check(okGuard, "C12.R4", fname+"|parent-guard", p.Pos(instrPos(pc)), by, "parent consulted without a parent != nil test")
 		}
 		for _, bl := range basic {
 			atRoot := false
@@ -535,7 +558,7 @@ func c12Order(p *Program, r *Report, m *envModel, fns []*ssa.Function) {
 						if iff, ok := r2.(*ssa.If); ok {
 							t := iff.Block().Succs[0]
 							reach := reachable(t, nil)
-							okRet = len(t.Preds) == 1
+							okRet = true
 							for _, other := range append(append(instrsOf(ext), parentCalls...), instrsOfL(basic)...) {
 								if reach[other.Block()] {
 									okRet = false
@@ -1133,6 +1156,28 @@ func (m *envModel) nonNil(v ssa.Value, recv ssa.Value, at *ssa.BasicBlock, seen 
 		return true, "cycle"
 	}
 	seen[v] = true
+	// the value itself was tested: `for scope := e; scope != nil; scope = scope.parent { ... scope.values ... }`
+	if at != nil && v.Referrers() != nil {
+		for _, ref := range *v.Referrers() {
+			bo, ok := ref.(*ssa.BinOp)
+			if !ok || bo.X != v || !isNilConst(bo.Y) || (bo.Op != token.EQL && bo.Op != token.NEQ) {
+				continue
+			}
+			for _, r2 := range *bo.Referrers() {
+				iff, ok := r2.(*ssa.If)
+				if !ok {
+					continue
+				}
+				side := 0
+				if bo.Op == token.EQL {
+					side = 1
+				}
+				if edgeOnly(iff.Block(), side, at) {
+					return true, "tested non-nil on this path"
+				}
+			}
+		}
+	}
 	switch x := v.(type) {
 	case *ssa.Alloc:
 		return true, "allocated here"
@@ -1280,6 +1325,33 @@ func c12Contract(p *Program, r *Report, m *envModel, fns []*ssa.Function, mutato
 					}
 				}
 			}
+			if parent == 0 && root == 0 && other == 0 {
+				// iterative form: a cursor that starts at the receiver and moves to its own parent; every write is made on the
+				// cursor's table where the cursor's scope holds the binding or is the root
+				cur := m.scopeCursors(fn, recv)
+				steps, okCur := 0, true
+				for c := range cur {
+					if ph, isPhi := c.(*ssa.Phi); isPhi {
+						for _, e := range ph.Edges {
+							if x, f, ok := fieldLoad(e); ok && f == m.parentI && cur[x] {
+								steps++
+							}
+						}
+					}
+				}
+				for _, a := range m.accessesOf(fn) {
+					if !a.write {
+						continue
+					}
+					if !cur[a.base] || !m.cursorActsOnHit(a.in.Block(), a.base) {
+						okCur = false
+					}
+				}
+				if steps > 0 && okCur {
+					r.OK("C12.R7", fname+"|nearest-binding", site, "walks the chain with a cursor and writes only where the cursor's scope holds the binding (or is the root)")
+					continue
+				}
+			}
 			r.Check(okSelf && parent > 0 && root == 0 && other == 0, "C12.R7", fname+"|nearest-binding", site,
 				"acts on this scope only when it holds the binding (or is the root) and otherwise recurses on the parent",
 				fmt.Sprintf("%s must update the nearest existing binding: act here only on an own-table hit, else recurse on parent (ownHitOnly=%v parentRecursion=%d root=%d other=%d)", fn.Name(), okSelf, parent, root, other))
@@ -1320,6 +1392,53 @@ func envWholeChainCopy(p *Program, r *Report, m *envModel, fns []*ssa.Function, 
 }
 
 // underOwnHit: block is dominated by the true edge of a comma-ok lookup in one of recv's own tables.
+// cursorActsOnHit: block b is reached only when the scope held by cursor c has the binding in its own table, or is the root.
+func (m *envModel) cursorActsOnHit(b *ssa.BasicBlock, c ssa.Value) bool {
+	if m.underOwnHit(b, c) || m.guardedByParentTest(b, c, true) {
+		return true
+	}
+	// `if ok || c.parent == nil { act }`: every edge into the acting block is the hit edge or the root edge
+	for d := b; d != nil; d = d.Idom() {
+		if len(d.Preds) < 2 {
+			continue
+		}
+		all := true
+		for _, pr := range d.Preds {
+			iff, ok := pr.Instrs[len(pr.Instrs)-1].(*ssa.If)
+			if !ok || pr.Succs[0] == pr.Succs[1] {
+				all = false
+				break
+			}
+			side := 0
+			if pr.Succs[1] == d {
+				side = 1
+			}
+			good := false
+			if ex, ok := iff.Cond.(*ssa.Extract); ok && ex.Index == 1 && side == 0 {
+				if lk, ok := ex.Tuple.(*ssa.Lookup); ok {
+					if x, f, ok := fieldLoad(lk.X); ok && x == c {
+						_, good = m.tables[f]
+					}
+				}
+			}
+			if bo, ok := iff.Cond.(*ssa.BinOp); ok && isNilConst(bo.Y) {
+				if x, f, ok := fieldLoad(bo.X); ok && x == c && f == m.parentI {
+					good = (bo.Op == token.EQL && side == 0) || (bo.Op == token.NEQ && side == 1)
+				}
+			}
+			if !good {
+				all = false
+				break
+			}
+		}
+		if all {
+			return true
+		}
+		break
+	}
+	return false
+}
+
 func (m *envModel) underOwnHit(b *ssa.BasicBlock, recv ssa.Value) bool {
 	for d := b; d != nil; d = d.Idom() {
 		if len(d.Preds) != 1 {
